@@ -684,6 +684,46 @@ fn main()
             c.run(&mut out);
         }
     }
+    // (1b) lessons from the seeded changes: placements other than [0..n-1] for conditional composites (with permuted
+    //      sub-placements), control lists that are not a prefix of the register, measure_all with every permutation of the
+    //      bit list (all but the identity must be refused), zero-iteration loops under a condition (plain, inside a
+    //      composite, around a composite)
+    {
+        let perms3: [[usize; 3]; 6] = [[0, 1, 2], [0, 2, 1], [1, 0, 2], [1, 2, 0], [2, 0, 1], [2, 1, 0]];
+        for p in perms3.iter()
+        {
+            for b in [(Basis::Z, "Z"), (Basis::X, "X"), (Basis::Y, "Y")]
+            {
+                let mut c = Case::new(3, 3);
+                c.gate(&lib("H"), &[p[0]]);
+                c.measure_all(&p[..], b);
+                c.gate(&lib("X"), &[p[1]]);
+                c.run(&mut out);
+            }
+            // a two-qubit composite with swapped sub-placements, on every ordered pair of the permutation
+            let inner = comp(2, vec![(lib("H"), vec![1]), (lib("CX"), vec![1, 0]), (lib1("RZ", 0.75), vec![0]), (lib("CS"), vec![0, 1])]);
+            for controls in [vec![2usize], vec![2, 0], vec![1, 2], vec![0, 2], vec![1]]
+            {
+                let target = rng.below(1 << controls.len());
+                let mut c = Case::new(3, 3);
+                for q in 0..3 { c.gate(&lib("H"), &[q]); }
+                for &k in controls.iter() { c.measure(k, k, z); c.gate(&lib("H"), &[k]); }
+                c.cgate(&controls, target, &inner, &[p[2], p[0]]);
+                c.cgate(&controls, target, &comp(3, vec![(inner.clone(), vec![2, 0]), (lib("T"), vec![1])]), &p[..]);
+                c.run(&mut out);
+            }
+            // zero-iteration loops under a condition
+            let zl = lp(0, 1, vec![(lib("H"), vec![0]), (lib("X"), vec![0])]);
+            let mut c = Case::new(3, 3);
+            c.gate(&lib("H"), &[p[0]]); c.measure(p[0], p[0], z);
+            c.cgate(&[p[0]], 1, &zl, &[p[1]]);
+            c.cgate(&[p[0]], 1, &comp(2, vec![(lib("X"), vec![1]), (zl.clone(), vec![0]), (lib("H"), vec![0])]), &[p[2], p[1]]);
+            c.cgate(&[p[0]], 0, &lp(0, 2, vec![(comp(2, vec![(lib("CX"), vec![1, 0])]), vec![0, 1])]), &[p[1], p[2]]);
+            c.cgate(&[p[0]], 1, &lp(2, 2, vec![(lib("CX"), vec![1, 0]), (zl.clone(), vec![1])]), &[p[1], p[2]]);
+            c.measure(p[1], p[1], z);
+            c.run(&mut out);
+        }
+    }
     // (2) random circuits
     let ncirc = if thorough() { 30000 } else { 2500 };
     for i in 0..ncirc
